@@ -176,13 +176,12 @@ SEQ22 = SEQ12 + [("R", "a[1]", 2), ("R", "a", 3), ("M", [["a", 2], "nope", "s"])
 
 
 def seq_alphabet(cfgkey, name):
-    """call alphabets of the length-3 sequences; written with 0/1 and mapped onto the type's first two boundary values;
-    index 2 is the last element of a[2] configs' out-of-range index"""
+    """call alphabets of the sequences from a fresh system; SEQ12/SEQ22 are written with 0/1 and mapped onto the type's
+    first two boundary values (on a[2] configurations index 2 is an out-of-range index)"""
     typ, variant, _ = cfgkey
     if name == "full":
         return [op for op, closed in a_ops(cfgkey) if closed]
     v = TS.VALS[typ]
-    n = 3 if variant == "arr" else 2
     out = []
     for op in (SEQ12 if name == "seq12" else SEQ22):
         if op[0] == "W":
